@@ -137,3 +137,30 @@ def gen_defects():
     L = _lib()
     gen(b"")
     return [L.bzk_gen_defect_name(i).decode() for i in range(L.bzk_gen_ndefects())]
+
+
+def gen_sym(tape, max_block=3000, sym_blocks=1, plant=0, defect=-1):
+    """Generator with symbol-level blocks (planted bit strings inside coded data, groups of maximal width).
+    Returns (file bytes, plaintext by the format's rules, info)."""
+    import ctypes
+    L = _lib()
+    if not hasattr(L, "_gen2_ready"):
+        L.bzk_gen2.restype = ctypes.c_void_p
+        L.bzk_gen2.argtypes = [ctypes.c_char_p, ctypes.c_size_t, ctypes.c_int, ctypes.c_int, ctypes.c_int, ctypes.c_int,
+                               ctypes.c_int, ctypes.POINTER(ctypes.c_void_p), ctypes.POINTER(ctypes.c_size_t),
+                               ctypes.POINTER(ctypes.c_void_p), ctypes.POINTER(ctypes.c_size_t)]
+        L._gen2_ready = True
+    bp, pp = ctypes.c_void_p(), ctypes.c_void_p()
+    bl, pl = ctypes.c_size_t(), ctypes.c_size_t()
+    tape = bytes(tape)
+    js = L.bzk_gen2(tape, len(tape), int(max_block), 0, int(defect), int(sym_blocks), int(plant),
+                    ctypes.byref(bp), ctypes.byref(bl), ctypes.byref(pp), ctypes.byref(pl))
+    try:
+        info = json.loads(ctypes.string_at(js))
+        data = ctypes.string_at(bp.value, bl.value)
+        plain = ctypes.string_at(pp.value, pl.value)
+    finally:
+        L.bzk_free(js)
+        L.bzk_free(bp)
+        L.bzk_free(pp)
+    return data, plain, info
